@@ -41,10 +41,7 @@ type limExpect struct {
 	CtlBig    bool   // a control frame declares more than 125 bytes
 	At        int    // frame index
 	Why       string
-	CtlInside bool // a control frame arrived while a fragmented message was being assembled (see C12 finding)
-	// a control frame larger than MessageLengthLimit: the implementation applies the limit to control payloads as
-	// well; the property speaks about messages, so both outcomes are accepted
-	Either bool
+	CtlInside bool // a control frame is part of the sequence (it must not count against the message limit: D30)
 	Closed bool // a close frame ended the connection
 	Inflated int // bytes produced by inflating the compressed messages (cost of a model run)
 }
@@ -65,13 +62,8 @@ func limitRef(frames []rawFrame, limit int) limExpect {
 				e.CtlBig, e.At, e.Why = true, i, fmt.Sprintf("control frame declares %d bytes", n)
 				return e
 			}
-			if limit > 0 && n > limit {
-				e.Either, e.At = true, i
-				return e
-			}
-			if in {
-				e.CtlInside = true
-			}
+			// control frames never count against the message limit, inside a fragmented message or alone
+			e.CtlInside = true
 			if f.Op == 8 {
 				e.Closed, e.At = true, i
 				return e
@@ -448,10 +440,6 @@ func oracle15(ep *endpoint, res []opRes, c limCase, exp limExpect, rp replay15) 
 			}
 		}
 	}
-	if exp.Either {
-		rep.Stat("15:control-frame-larger-than-message-limit")
-		return
-	}
 	truncated := c.Truncate > 0
 	wrote1009 := false
 	for _, w := range ep.writes {
@@ -486,7 +474,7 @@ func oracle15(ep *endpoint, res []opRes, c limCase, exp limExpect, rp replay15) 
 		if perr == "toolarge" || perr == "ctlbig" || wrote1009 {
 			if exp.CtlInside && perr == "toolarge" {
 				fail("C12", "control-frame-counted-against-message-limit",
-					fmt.Sprintf("every message is within MessageLengthLimit=%d, but a control frame between the fragments was counted against it: Parse returned %s", c.Limit, perr))
+					fmt.Sprintf("every message is within MessageLengthLimit=%d, but a control frame was counted against it: Parse returned %s", c.Limit, perr))
 				return
 			}
 			fail("C15", "message-within-limit-refused", fmt.Sprintf("every message is within MessageLengthLimit=%d, Parse returned %s (1009 written: %v)", c.Limit, perr, wrote1009))
